@@ -239,7 +239,7 @@ Proof.
   destruct rest as [|[cur ow] rest']; [discriminate|].
   inversion Hf as [|x l (w & Hw & Hc) Hf']; subst. cbn [snd] in Hw. subst ow.
   rewrite (can_be_wrapper_replace _ _ Hc).
-  destruct (gen_def_and_step_total cfg (a_defs a) cur (set_args w [RClosure n_v prev])
+  destruct (gen_def_and_step_total cfg (a_defs a) cur (set_args w [wrapper_closure cfg prev])
               (can_be_wrapper_pos_ok w _ Hc)) as (ds' & s & E).
   rewrite E. cbn [rbind fst snd]. eexists. split; [reflexivity|].
   exists (s, None), rest'. cbn [a_stk]. cbn [List.length] in Hl. repeat split; auto; lia.
